@@ -72,6 +72,20 @@ func MultiProjects() []MProj {
 		out = append(out, MProj{fmt.Sprintf("non-ascii-string/%d", i), map[string]string{"main.fer": src},
 			[]string{fmt.Sprint(n), sv, "true", sv + "!", fmt.Sprint(n), fmt.Sprint(2 * n)}})
 	}
+	// the amount of literal text in one program: the data of a module starts at a fixed address,
+	// what follows it (the heap) has to start behind it, and the memory has to hold it
+	for _, k := range []int{1, 4, 8, 12, 15, 16, 17, 34, 67, 69, 72, 140} {
+		var b strings.Builder
+		b.WriteString("import \"std/io\";\nfn main() {\n    let total: i32 = 0;\n")
+		for i := 0; i < k; i++ {
+			fmt.Fprintf(&b, "    let s%d: str = \"%04d%s\";\n    total = total + len(s%d);\n", i, i, strings.Repeat(string(rune('a'+i%26)), 956), i)
+		}
+		last := k - 1
+		fmt.Fprintf(&b, "    io::Println(total);\n    let j := s0 + s%d;\n    io::Println(len(j));\n    io::Println(s%d == s0);\n    io::Println(s%d == s%d);\n", last, last, last, last)
+		b.WriteString("    let d: []i32 = [1, 2, 3];\n    append(&'d, 4);\n    io::Println(d[3]);\n    io::Println(len(j + j));\n}\n")
+		out = append(out, MProj{fmt.Sprintf("literal-data/%dx960", k), map[string]string{"main.fer": b.String()},
+			[]string{fmt.Sprint(k * 960), "1920", fmt.Sprint(k == 1), "true", "4", "3840"}})
+	}
 	return out
 }
 
@@ -109,4 +123,34 @@ func runProjects(c *vl.Ctx, r *prog.Runner) {
 		files["observed.txt"] = got + "\n[" + p.Term() + "]\n"
 		c.Fail(vl.Fail{Case: id, Obs: fmt.Sprintf("want %s got %s [%s]", strings.Join(mp.Want, "|"), strings.ReplaceAll(got, "\n", "|"), p.Term()), Files: files})
 	}
+}
+
+// FloatProjects: f64 values through printing, string concatenation, arithmetic, comparison and
+// conversion to integers. There is no reference semantics for the text of a float here: the
+// projects are judged differentially (C02), numbers compared as numbers.
+func FloatProjects() []MProj {
+	head := "import \"std/io\";\nfn zero() -> f64 { return 0.0; }\nfn show(name: str, x: f64) {\n    io::Println(name + \"=\" + x);\n    io::Println(x);\n    io::Println(len(\"\" + x));\n" +
+		"    io::Println(x * 2.0);\n    io::Println(x / 3.0);\n    io::Println(-x);\n    io::Println(x + 0.5);\n    io::Println(x - 1000000.0);\n}\n" +
+		"fn cmp(x: f64, y: f64) {\n    io::Println(x < y);\n    io::Println(x <= y);\n    io::Println(x > y);\n    io::Println(x >= y);\n    io::Println(x == y);\n    io::Println(x != y);\n}\n" +
+		"fn toint(x: f64) {\n    io::Println(x as i64);\n    io::Println(x as i32);\n    io::Println((x as i64) as f64);\n    io::Println((x as i32) as f64);\n}\n"
+	groups := []struct {
+		id    string
+		lines []string
+	}{
+		{"plain", []string{`show("half", 0.5);`, `show("eight", 8.0);`, `show("zero", 0.0);`, `show("neg", -123456.789);`, `show("one", 1.0);`, `show("ten", 10.0);`, `show("frac", 2.75);`}},
+		{"inexact", []string{`let one: f64 = 1.0;`, `show("third", one / 3.0);`, `show("sum", 0.1 + 0.2);`, `show("tenth", 0.1);`, `show("pi", 3.14159265358979);`}},
+		{"exponent-large", []string{`show("e20", 1000000000000.0 * 100000000.0);`, `show("15e19", 1500000000000.0 * 100000000.0);`, `show("e15", 1000000000000000.0);`, `show("2e15", 2000000000000000.0);`,
+			`show("e16", 1000000000000000.0 * 10.0);`, `show("p53", 9007199254740992.0);`, `show("p53m1", 9007199254740991.0);`, `show("e14", 100000000000000.0);`, `show("e21", 1000000000000.0 * 1000000000.0);`}},
+		{"exponent-small", []string{`show("5e-5", 0.00005);`, `show("125e-7", 0.0000125);`, `show("e-4", 0.0001);`, `show("e-5", 0.00001);`, `show("e-7", 0.0000001);`, `show("3e-4", 0.0003);`}},
+		{"compare", []string{`cmp(0.5, 0.5);`, `cmp(0.5, 0.25);`, `cmp(-0.5, 0.5);`, `cmp(0.0, -0.0);`, `cmp(1000000000000.0 * 100000000.0, 1500000000000.0 * 100000000.0);`}},
+		{"to-int", []string{`toint(0.5);`, `toint(-0.5);`, `toint(2.5);`, `toint(-2.5);`, `toint(123456.789);`, `toint(-123456.789);`, `toint(2147483647.0);`, `toint(-2147483648.0);`, `toint(0.999999);`}},
+		{"infinity", []string{`let z: f64 = zero();`, `show("inf", 1.0 / z);`, `show("ninf", -1.0 / z);`, `cmp(1.0 / z, 1.0);`, `cmp(-1.0 / z, 1.0 / z);`}},
+		{"nan-text", []string{`let z: f64 = zero();`, `let n: f64 = z / z;`, `io::Println("nan=" + n);`, `io::Println(len("" + n));`, `io::Println(n);`, `io::Println(n + 1.0);`}},
+		{"nan-compare", []string{`let z: f64 = zero();`, `let n: f64 = z / z;`, `cmp(n, 1.0);`, `cmp(1.0, n);`, `cmp(n, n);`}},
+	}
+	var out []MProj
+	for _, g := range groups {
+		out = append(out, MProj{"float/" + g.id, map[string]string{"main.fer": head + "fn main() {\n    " + strings.Join(g.lines, "\n    ") + "\n}\n"}, nil})
+	}
+	return out
 }
